@@ -565,18 +565,31 @@ func (c *Ctx) encodingShortcut(info *types.Info) {
 	}
 	c.check(bad == "", "RT-ENCSHORTCUT", fname, "`StandardEncoding` is written only if every entry equals the standard name, or is .notdef while the standard glyph is absent from the font", rng.Pos(), fmt.Sprintf("decision table over %d cells", cells), "encoding shortcut: "+bad+" — after reading the file back the code would be assigned although the font left it unassigned (or vice versa)")
 	// the standard names come from psenc.StandardEncoding indexed by the code
-	c.check(strings.Contains(nodeString(c, rng.Body), "psenc.StandardEncoding[i]"), "RT-ENCSHORTCUT", fname, "compared with psenc.StandardEncoding at the same code", rng.Pos(), "", "entries are not compared with psenc.StandardEncoding[code]")
+	stdAtCode := false
+	stdObj := c.pkg("psenc").Types.Scope().Lookup("StandardEncoding")
+	keyID, _ := rng.Key.(*ast.Ident)
+	ast.Inspect(rng.Body, func(n ast.Node) bool {
+		if ix, ok := n.(*ast.IndexExpr); ok && keyID != nil {
+			if sel, ok := ix.X.(*ast.SelectorExpr); ok && info.ObjectOf(sel.Sel) == stdObj {
+				if id, ok := ix.Index.(*ast.Ident); ok && info.ObjectOf(id) == info.ObjectOf(keyID) {
+					stdAtCode = true
+				}
+			}
+		}
+		return true
+	})
+	c.check(stdAtCode, "RT-ENCSHORTCUT", fname, "compared with psenc.StandardEncoding at the same code", rng.Pos(), "", "entries are not compared with psenc.StandardEncoding[code]")
 }
 
 // ---- C10 specific
 
 // nameProvenance: conversions of data to postscript.Name.
 var nameConvAllowed = map[string]string{
-	"(*postscript.scanner).ScanToken":   "bytes collected under the isRegular test",
-	"postscript.makeSystemDict":         "names of psenc.StandardEncoding (constants)",
-	"(*postscript.Interpreter).load":    "operator names come from the scanner (regular characters); used for look-up",
-	"postscript.isSameDict":             "decimal digits; probe key removed again",
-	"postscript.ReadCMap":               "a key already present in the directory",
+	"(*postscript.scanner).ScanToken": "bytes collected under the isRegular test",
+	"postscript.makeSystemDict":       "names of psenc.StandardEncoding (constants)",
+	"(*postscript.Interpreter).load":  "operator names come from the scanner (regular characters); used for look-up",
+	"postscript.isSameDict":           "decimal digits; probe key removed again",
+	"postscript.ReadCMap":             "a key already present in the directory",
 }
 
 func (c *Ctx) nameProvenance() {
